@@ -48,6 +48,9 @@ func (n *pgNamer) rootName(v ssa.Value) string {
 	if s, ok := n.ids[v]; ok {
 		return s
 	}
+	if g, ok := v.(*ssa.Global); ok {
+		return "global:" + g.Name() // stable across namers
+	}
 	s := fmt.Sprintf("v%d", len(n.ids)+1)
 	if p, ok := v.(*ssa.Parameter); ok {
 		for i, q := range n.fn.Params {
